@@ -23,6 +23,8 @@ REQS = {
     'P9': dict(kind='put', v=2, form='vara', start=[4, 0], count=[1, 2]),
     'PA': dict(kind='put', v=2, form='vara', start=[0, 0], count=[3, 2]),
     'PB': dict(kind='put', v=3, form='vara', start=[0], count=[2]),
+    'PC': dict(kind='put', v=2, form='varn', boxes=[([0, 0], [2, 1]), ([2, 1], [1, 1])]),      # varn on the first record variable, first box starts at record 0 and spans two records (sorted in front of requests on later variables)
+    'PD': dict(kind='put', v=2, form='varn', boxes=[([0, 1], [0, 1]), ([3, 1], [1, 1]), ([3, 0], [1, 1])]),   # varn with a zero-length box
     'G1': dict(kind='get', v=0, form='vara', start=[0, 0], count=[2, 2]),
     'G2': dict(kind='get', v=0, form='vara', start=[0, 1], count=[2, 2]),
     'G3': dict(kind='get', v=2, form='vara', start=[0, 0], count=[2, 2], mem='schar', erange=True),
@@ -377,19 +379,25 @@ def main(tier=None):
     b = build.build('plain')
     thorough = ck.tier == 'thorough'
     scripts = []
+    CORE8 = ['P1', 'P3', 'P5', 'P6', 'PA', 'PC', 'P7', 'G1', 'G4', 'G5']
+    CORE6 = ['P1', 'P4', 'P6', 'PB', 'PD', 'G2', 'G5']
+    quads = [('P1', 'P3', 'G5', 'G6'), ('P4', 'P6', 'G1', 'G2'), ('P5', 'P8', 'P9', 'G4'), ('G1', 'G2', 'G4', 'G7')]
     if thorough:
         scripts += gen_A(3)
+        scripts += gen_A(4, names=[n for n in CORE6 if n in REQS])
         scripts += gen_B(REPR_TRIPLES)
         scripts += gen_C(REPR_TRIPLES)
         scripts += gen_D(REPR_TRIPLES, 2)
-        scripts += gen_D(REPR_TRIPLES[:4], 3)
-        quads = [('P1', 'P3', 'G5', 'G6'), ('P4', 'P6', 'G1', 'G2'), ('P5', 'P8', 'P9', 'G4'), ('G1', 'G2', 'G4', 'G7')]
-        scripts += gen_B(quads, hows=('wait_all',))
+        scripts += gen_D(REPR_TRIPLES, 3)
+        scripts += gen_B(quads)
+        scripts += gen_C(quads)
     else:
         scripts += gen_A(2)
-        scripts += gen_B(REPR_TRIPLES[:4])
-        scripts += gen_C(REPR_TRIPLES[:5])
-        scripts += gen_D(REPR_TRIPLES[:3], 2)
+        scripts += gen_A(3, names=[n for n in CORE8 if n in REQS])
+        scripts += gen_B(REPR_TRIPLES)
+        scripts += gen_C(REPR_TRIPLES)
+        scripts += gen_D(REPR_TRIPLES, 2)
+        scripts += gen_B(quads[:2], hows=('wait_all',))
     results = runner.run_cases(b['vx'], [s.case for s in scripts], batch=40)
     states = set(); trans = set()
     for s, r in zip(scripts, results):
@@ -413,7 +421,7 @@ def main(tier=None):
                 if o.get('op') in ('wait', 'cancel', 'rbuf'): ck.outcomes.add((o.get('op'), o.get('rc'), o.get('st'), o.get('vals')))
     ck.cov.update(states=len(states), transitions=len(trans), traces_validated_against_impl=len(scripts),
                   distinct_nontrivial=len(set(tuple(s.trace) for s in scripts)),
-                  rule='histories = ordered selections of <=3 (quick A: <=2) compatible requests from a 16-letter alphabet x {all ordered set-partitions into waits x all id permutations, '
+                  rule='histories = ordered selections of <=3 compatible requests from the full request alphabet (quick: <=2, plus <=3 over an 8-letter core; thorough: plus <=4 over a 6-letter core) x {all ordered set-partitions into waits x all id permutations, '
                        'NULL padding at every position, by-kind completion, cancel of every subset, posting in define mode, unknown id in a partial wait, every assignment of requests to 2-3 ranks}; '
                        'each history is replayed on a fresh file and compared step by step with the blocking reference model; state = (pending set, completed set)')
     ck.sample(scripts[0].case.text()[:2000]); ck.sample(scripts[-1].case.text()[:2000])
